@@ -147,6 +147,15 @@ func funcInputs() []map[string]tVal {
 	return out
 }
 
+// l op r for the plain assignment, the update assignment and one arithmetic update operator (l and r stay opaque)
+func updInputs() []map[string]tVal {
+	var out []map[string]tVal
+	for _, op := range []string{"OpAssign", "OpModify", "OpUpdateAdd", "OpUpdateAlt"} {
+		out = append(out, map[string]tVal{"op": tconst(tplCtx, op), "name": tstr("op-" + op)})
+	}
+	return out
+}
+
 func callInputs() []map[string]tVal {
 	var out []map[string]tVal
 	for _, x := range []struct {
@@ -208,7 +217,7 @@ func optIndexPred(short string, arg tVal) bool {
 }
 
 var tplRoots = []tplRoot{
-	R("compileComma", 1, 1, nil), R("compileAlt", 1, 1, nil), R("compileQueryUpdate", 1, 1, nil), R("compileBind", 1, 1, bindInputs), R("compilePattern", 1, 0, patternInputs),
+	R("compileComma", 1, 1, nil), R("compileAlt", 1, 1, nil), R("compileQueryUpdate", 1, 1, updInputs), R("compileBind", 1, 1, bindInputs), R("compilePattern", 1, 0, patternInputs),
 	R("compileIf", 1, 1, nil), R("compileTry", 1, 1, nil), R("compileReduce", 1, 1, nil), R("compileForeach", 1, 1, nil), R("compileLabel", 1, 1, nil),
 	R("compileBreak", 1, 1, nil), R("compileTerm", 1, 1, nil), R("compileIndex", 1, 1, indexInputs), R("compileFunc", 1, 1, funcInputs), R("compileObject", 1, 1, objectInputs),
 	R("compileObjectKeyVal", 0, 2, keyvalInputs), R("compileArray", 1, 1, nil), R("compileUnary", 1, 1, nil), R("compileTermSuffix", 1, 1, nil),
@@ -277,6 +286,16 @@ func ruleC01Template(c *Ctx, r *Rep) {
 				}
 				if !hasBegin || !hasEnd {
 					msg = "the template of path(f) has no oppathbegin/oppathend bracket: the path is produced without evaluating f against the input, so `{\"a\":1} | path(.a.b)` yields [\"a\",\"b\"] where f (and getpath) fail, and try cannot catch what is no longer raised"
+				}
+			}
+			if msg == "" && root.fn == "compileQueryUpdate" && v.Label == "call:op-OpModify" {
+				// `=` and the arithmetic update operators (`l op= r` is `r as $x | l |= . op $x`) evaluate their right-hand side
+				// against the input of the whole expression; the right-hand side of `|=` sees the value at each path, so it may
+				// only be compiled as an argument of the update function, never inline
+				for i, it := range v.Items {
+					if it.isHole && it.chain == root.fn && (it.arg == "r" || strings.HasSuffix(it.arg, ".r")) {
+						msg = fmt.Sprintf("[%d] the right-hand side of %s is compiled inline, against the input of the whole update: for this operator it must see the value at the path (`{\"a\":1} | .a |= .` would yield {\"a\":{\"a\":1}})", i, strings.TrimPrefix(v.Label, "call:op-"))
+					}
 				}
 			}
 			if msg == "" {
@@ -1099,6 +1118,7 @@ var tplRouteIN = map[string][]string{
 	"compileReduce": {"Start", "Query"}, "compileForeach": {"Start", "Query"}, "compileBind": {"l", "r"},
 	"compileArray": {"Query"}, "compileUnary": {"Term"}, "compileLabel": {"Body"}, "compileObjectKeyVal": {"KeyQuery", "Val"},
 	"compileQuery": {"Term", "Left"}, "compileIndex": {"e"}, "compileTermSuffix": {"e"},
+	"compileQueryUpdate": {"r"}, // where it is compiled inline at all (`=`, `op=`): against the input of the whole expression
 }
 
 // tplRouteCheck compares the symbolic input of every identifiable sub-query hole with jq's rule for the construct.
